@@ -135,13 +135,19 @@ def linearise(v, field_mode, rng, skip_fields=True):
 
 
 ILL = [["endlist"], ["endtuple"], ["endrecord"], ["field", "x"], ["field", "q"], ["index", 0], ["index", 1], ["index", 5],
-       ["index", -1], ["index", -2], ["int", 7], ["null"], ["beginlist"], ["begintuple", 2], ["beginrecord", None],
+       ["index", -1], ["index", -2], ["int", 7], ["null"], ["beginlist"], ["begintuple", 2], ["begintuple", -1],
+       ["begintuple", -7], ["beginrecord", None],
        ["beginrecord", "A"], ["real", "1.5"], ["str", "7a"]]
 
 
 def generate(rng, opts):
     if rng.random() < opts.get("builder_layoutbuilder_share", 0.25):
         return layoutb.generate(rng, opts)      # the Form-driven front end
+    if rng.random() < 0.004:
+        # more distinct types at one position than a union has tags for (127): tuples of 1..n fields, or n differently
+        # named records; nothing may crash, and whatever a snapshot returns must be a valid layout
+        return {"mode": "many_types", "n": rng.choice([126, 127, 128, 129, 131, 140]), "kind": rng.choice(["tuples", "records"]),
+                "initial": rng.choice(INITIAL), "resize": rng.choice(RESIZE), "snap_every": rng.choice([0, 50])}
     g = Gen(rng, opts)
     r = rng
     nvalues = r.randint(1, opts.get("builder_max_values", 8))
@@ -165,6 +171,9 @@ def generate(rng, opts):
             events.append(["dropsnap", r.randrange(nsnap)])
         if r.random() < p_clear:
             events.append(["clear"])
+            if r.random() < 0.4:
+                events.append(["snapshot"])      # what a cleared builder shows before anything new arrives
+                nsnap += 1
         if nsnap and r.random() < p_append:
             k = r.randrange(nsnap)
             if r.random() < 0.7:
@@ -417,9 +426,48 @@ def dump(node, h):
     return vm.loads(node.dump(h))
 
 
+def execute_many_types(node, case, rec, opts):
+    rec.fault("more_types_than_union_tags")
+    b = B(node, case["initial"], case["resize"], 0, "check")
+
+    def snap(t):
+        try:
+            h = node.b_snapshot(b.h)
+        except NodeError as e:
+            if e.cls not in ("invalid_argument", "runtime_error"):
+                raise Violation("robustness", "snapshot_raised", {"at": t, "error": [e.cls, e.msg[:300]]}, at=t)
+            rec.probe("many_types_snapshot_refused")
+            return
+        try:
+            err = node.text(h, 3)
+        except NodeError as e:
+            raise Violation("robustness", "validity_check_raised", {"at": t, "error": [e.cls, e.msg[:300]]}, at=t)
+        if err != b"":
+            raise Violation("value", "snapshot_is_not_a_valid_layout", {"at": t, "validityerror": err.decode("latin-1")[:300]}, at=t)
+        node.drop(h)
+    for k in range(1, case["n"] + 1):
+        rec.ticks += 1
+        try:
+            if case["kind"] == "tuples":
+                b.send(["begintuple", k]); b.send(["index", 0]); b.send(["int", k]); b.send(["endtuple"])
+            else:
+                b.send(["beginrecord", "R%d" % k]); b.send(["field", "x"]); b.send(["int", k]); b.send(["endrecord"])
+        except NodeError as e:
+            if e.cls not in ("invalid_argument", "runtime_error"):
+                raise Violation("errors", "unexpected_exception_class", {"k": k, "error": [e.cls, e.msg[:300]]}, at=k)
+            rec.probe("many_types_refused")
+            break
+        if case["snap_every"] and k % case["snap_every"] == 0:
+            snap(k)
+    snap(case["n"] + 1)
+    rec.probe("many_types_survived")
+
+
 def execute(node, case, rec, opts):
     if case.get("mode") == "layoutbuilder":
         return layoutb.execute(node, case, rec, opts)
+    if case.get("mode") == "many_types":
+        return execute_many_types(node, case, rec, opts)
     model = BuilderModel()
     b = B(node, case["initial"], case["resize"], case["via"], case["field_mode"])
     twin = B(node, case["twin"][0], case["twin"][1], 0, case["field_mode"])
@@ -490,7 +538,12 @@ def execute(node, case, rec, opts):
                     raise Violation("determinism", "twin_builder_differs",
                                     {"a": vm.to_jsonable(val), "b": vm.to_jsonable(tval), "t": t}, at=t)
                 fa, fb = node.text(h, 0), node.text(th, 0)
-                if fa != fb:
+                if fa != fb and 0 in (case["initial"], case["twin"][0]) and node.text(h, 1) == node.text(th, 1):
+                    # a builder whose buffers start with room for 0 items hands out null pointers for its empty buffers;
+                    # which node class an *empty, unreachable* part of the snapshot gets (ListArray64 or ListOffsetArray64
+                    # after a union of cleared contents is simplified) then differs, the type and the value do not
+                    rec.probe("form_of_unreachable_part_differs_with_initial_0")
+                elif fa != fb:
                     raise Violation("determinism", "twin_builder_form_differs",
                                     {"a": fa.decode("latin-1"), "b": fb.decode("latin-1")}, at=t)
                 verr = node.text(h, 3)
@@ -642,6 +695,8 @@ def execute(node, case, rec, opts):
 def signature(case):
     if case.get("mode") == "layoutbuilder":
         return layoutb.signature(case)
+    if case.get("mode") == "many_types":
+        return [stable_hash(["many_types", case["kind"], case["n"] > 127]), True]
     kinds = []
     last = None
     for ev in case["events"]:
@@ -656,6 +711,8 @@ def signature(case):
 def describe(case):
     if case.get("mode") == "layoutbuilder":
         return layoutb.describe(case)
+    if case.get("mode") == "many_types":
+        return dict(case)
     return {"initial": case["initial"], "resize": case["resize"], "twin": case["twin"], "field_mode": case["field_mode"],
             "via_extern_c": case["via"], "events": case["events"]}
 
@@ -664,6 +721,11 @@ def describe(case):
 def shrink_candidates(case):
     if case.get("mode") == "layoutbuilder":
         yield from layoutb.shrink_candidates(case)
+        return
+    if case.get("mode") == "many_types":
+        for n in (128, 129):
+            if n < case["n"]:
+                d = copy.deepcopy(case); d["n"] = n; yield d
         return
     ev = case["events"]
     n = len(ev)
